@@ -261,7 +261,7 @@ pub fn events(args: &[String]) {
     {
         let mut n = 0;
         for method in ALL_METHODS {
-            for sc in [1e-13, 1e-12, 1e-9, 1.0, 1e6] {
+            for sc in [1e-300, 1e-170, 1e-13, 1e-12, 1e-9, 1.0, 1e6, 1e200] {
                 for xend in [3.0, -3.0] {
                     let mut p = Prob::new(Kind::Harmonic);
                     let c0 = 0.5137 * xend;
